@@ -46,6 +46,6 @@ def obligations(src):
         obs.append(Obligation('display', 'holds' if not bad else 'violated', '; '.join(bad[:3]) or f'{len(res)} paths = 52 cards: text is exactly rank letter + suit letter, 52 distinct texts, each parses back to its card',
                               cex=dict(reproduced=True, detail=bad[:5], replay_how='see native unit of the text in detail') if bad else None, key='display-text', queries=nq + M.nq, solver_s=M.qtime,
                               wall_s=time.time() - t0, extra=dict(engine='mirx', description='<Card|Rank|Suit as Display>::fmt on a symbolic card; <Card as FromStr>::from_str on the produced text')))
-    except mirx.Unsupported as e:
-        obs.append(Obligation('display', 'inconclusive', 'unsupported: ' + str(e)))
+    except Exception as e:
+        obs.append(Obligation('display', 'inconclusive', ('unsupported: ' if isinstance(e, mirx.Unsupported) else 'internal: ' + type(e).__name__ + ' ') + str(e)))
     return obs
